@@ -45,6 +45,8 @@ fn permutations(xs: &[usize]) -> Vec<Vec<usize>> {
 }
 
 pub fn gen(ctx: &Ctx, rng: &mut Rng, out: &mut Vec<String>) {
+    // call histories on one spectrum object (queries, in-place edits, clones, replacement by its own fold / marginal / projection)
+    crate::stat::gen_hist(rng, if ctx.tier_thorough { 600 } else { 60 }, 4, out);
     let mut shp = if ctx.tier_thorough {
         let mut s = shapes::all_shapes(1, 4, 1, 4);
         s.extend(shapes::all_shapes(5, 5, 1, 3));
@@ -56,6 +58,11 @@ pub fn gen(ctx: &Ctx, rng: &mut Rng, out: &mut Vec<String>) {
         for _ in 0..40 { s.push(shapes::random_shape(rng, 2, 5, 1, 6, 1500)); }
         s
     };
+    // size sweeps: one long axis next to short ones (every length up to 130, thorough 400), and 6-8 short axes
+    let top = if ctx.tier_thorough { 400 } else { 130 };
+    for n in 5..=top { if n % 2 == 1 || n <= 40 || ctx.tier_thorough { shp.push(vec![n, 2]); shp.push(vec![2, n]); if n % 5 == 0 { shp.push(vec![2, n, 3]); } } }
+    let mut wide: Vec<Vec<usize>> = Vec::new();
+    for d in 6..=8usize { wide.push(vec![2; d]); wide.push((0..d).map(|k| 1 + (k % 3) % 2 + (k == 1) as usize).collect()); }
     shp.sort(); shp.dedup();
     shp.sort_by_key(|s| (s.iter().product::<usize>(), s.len()));
     // one 5-axis shape of unequal lengths gets every ordered axis list (the sort + shift logic only shows at >= 4 named axes)
@@ -90,5 +97,17 @@ pub fn gen(ctx: &Ctx, rng: &mut Rng, out: &mut Vec<String>) {
         let mut seq: Vec<usize> = (0..d + 1).collect(); rng.shuffle(&mut seq);
         out.push(format!("c04.marg\t{sh}\t{db}\t{}", nats(&seq)));
         out.push(format!("c04.marg\t{sh}\t{db}\t-"));
+    }
+    // 6-8 axes: a dozen random axis sets each, in two orders
+    for s in &wide {
+        let d = s.len(); let n: usize = s.iter().product();
+        let data = shapes::prime_data(rng, n);
+        for _ in 0..12 {
+            let k = rng.range(1, (d - 1) as u64) as usize;
+            let mut axes: Vec<usize> = (0..d).collect(); rng.shuffle(&mut axes); axes.truncate(k);
+            out.push(format!("c04.marg\t{}\t{}\t{}", nats(s), bits(&data), nats(&axes)));
+            axes.reverse();
+            out.push(format!("c04.step\t{}\t{}\t{}", nats(s), bits(&data), nats(&axes)));
+        }
     }
 }
